@@ -58,6 +58,20 @@ static const char* UPPER = "ABCDEFGHIJKLMNOPQRSTUVWXYZ0123456789";
 static const char* LONGCH = "ABCDEFGHIJKLMNOPQRSTUVWXYZ0123456789 .-_'/:+";
 
 static std::string gen_key(Rng& r, std::string& cat) {
+  if (r.coin(1, 10)) {
+    // the vocabulary of the FITS standard and of common conventions (bookkeeping cards that other tools write or refresh,
+    // WCS, table and checksum keywords), verbatim, extended and as prefixes of long keys: whatever write_key accepts is an
+    // entry like any other and has to survive
+    cat = "fitsvocab";
+    static const char* voc[] = {"CHECKSUM", "DATASUM", "DATE", "DATE-OBS", "DATEOBS", "DATE-END", "DATEOFCALIBRATION", "DATE OF CALIBRATION", "ORIGIN", "AUTHOR", "REFERENC", "OBSERVER",
+                                "TELESCOP", "INSTRUME", "OBJECT", "EQUINOX", "EPOCH", "BSCALE", "BZERO", "BUNIT", "BLANK", "DATAMAX", "DATAMIN", "EXTVER", "EXTLEVEL", "EXTNAME1", "HDUNAMES",
+                                "HDUVER", "HDULEVEL", "INHERIT", "LONGSTRN", "PCOUNT", "GCOUNT", "TFIELDS", "TFORM1", "TTYPE1", "TUNIT1", "THEAP", "GROUPS", "BLOCKED", "CTYPE1", "CRPIX1",
+                                "CRVAL1", "CDELT1", "CROTA2", "CUNIT1", "CD1_1", "PC1_1", "WCSAXES", "RADESYS", "LONPOLE", "LATPOLE", "MJD-OBS", "TIMESYS", "ZIMAGE", "ZCMPTYPE", "ZNAXIS",
+                                "CHECKVER", "FILENAME", "CREATOR", "SOFTWARE", "VERSION", "CONTINUE1", "HISTORY1", "COMMENT1", "ENDIAN", "XTENSIO", "SIMPL", "BITPI", "NAXI", "EXTEN"};
+    std::string k = voc[r.below(sizeof voc / sizeof voc[0])];
+    switch (r.below(6)) { case 0: k += rnd_chars(r, r.range(1, 3), UPPER); break; case 1: k = k + " " + rnd_chars(r, r.range(1, 12), UPPER); break; default: break; }
+    return k;
+  }
   int c = r.below(100);
   if (c < 30) { // short standard
     cat = "short";
@@ -102,7 +116,7 @@ static std::string gen_key(Rng& r, std::string& cat) {
   static const char* fixed[] = {"", " LEADING SP", "TRAILING SP ", "HIERARCH FOO", "HISTORY", "CONTINUE", "END", "         ", "HIERARCH  TWO BLANKS",
                                 "LONG\tKEY NAME", "LONG KEY \x7f DEL", "K\xc3\x89Y LONG NAME", " ", "ENDPOINT", "HISTORY1", "HIERARCHY", "CONTINUED",
                                 "EXTNAME", "HDUNAME", "EXTNAME1", "HDUNAMES", "EXTVER"};
-  return fixed[r.below(17)];
+  return fixed[r.below(sizeof fixed / sizeof fixed[0])];
 }
 
 // maxdatalen as the *documentation* of the format has it (independent of write_key): used only to aim values at the limit
@@ -144,6 +158,7 @@ int main(int argc, char** argv) {
   if (argc < 7) { fprintf(stderr, "usage\n"); return 2; }
   int nseq = atoi(argv[1]), maxops = atoi(argv[2]), ncards = atoi(argv[3]);
   FILE* fc = fopen(argv[4], "w"); FILE* fi = fopen(argv[5], "w");
+  if (getenv("C16_DEBUG")) { setvbuf(fc, nullptr, _IONBF, 0); setvbuf(fi, nullptr, _IONBF, 0); }   // a crash then leaves the failing operation as the last line
   Rng r(env_seed() * 7919 + 16);
   for (int s = 0; s < nseq; s++) {
     Table* t = fresh_table();
